@@ -79,10 +79,11 @@ def tree_dir():
     d = os.path.join(BUILD, 't-' + key)
     with Lock('treedir'):
         if not os.path.isdir(d):
-            # keep the scratch area small: drop all but the two most recent trees
+            # keep the scratch area small: drop all but the most recent trees - and never one that may still be in use by a
+            # check running at the same time against another tree (seeded changes are tried in parallel)
             old = sorted(glob.glob(os.path.join(BUILD, 't-*')), key=os.path.getmtime)
-            for o in old[:-2]:
-                shutil.rmtree(o, ignore_errors=True)
+            for o in old[:-6]:
+                if time.time() - os.path.getmtime(o) > 3600: shutil.rmtree(o, ignore_errors=True)
             os.makedirs(d, exist_ok=True)
     _tree_dir = d
     return d
